@@ -547,7 +547,7 @@ def run_jobs(jobs, max_par):
       for line in so.split("\n"):
         if line.startswith("RESULT "):
           d = json.loads(line[7:])
-          rs[d["id"]] = d
+          rs.setdefault(d["id"], []).append(d)
       out[n] = rs
       errs[n] = (p.returncode, se[-1500:])
       for ext in ("", ".out", ".err", ".pickled"):
@@ -558,33 +558,43 @@ def run_jobs(jobs, max_par):
   return out, errs
 
 
-def make_configs(r, progs, thorough):
+def make_configs(r, progs, sibs, thorough):
+  """Histories.  Warm-up programs come from the same rich generator as the targets (they create NewTypes,
+  NamedTuples, TypeVars, errors ...); `twice` analyses every file twice in a row with one loader; `siblings`
+  analyses each target right after a different program that shares its identifiers."""
   ids = [p["id"] for p in progs]
   rev = list(reversed(ids))
   sh1 = list(ids); r.shuffle(sh1)
   sh2 = list(ids); r.shuffle(sh2)
   warm = [c04_progs.gen_unrelated(r) for _ in range(3)]
+  half = ids if thorough else ids[: (len(ids) + 1) // 2]
+  with_sib = [i for i in (ids if thorough else ids[len(ids) // 2:]) if i in sibs]
+  twice = [x for i in half for x in (i, i)]
+  sib_order = [x for i in with_sib for x in ("sib_" + i, i)]
   cfgs = [
       {"name": "ref-seed0-freshloader-forward", "hashseed": 0, "job": {"loader": "fresh", "order": ids, "warmup": []}},
       {"name": "seed1-reusedloader-forward", "hashseed": 1, "job": {"loader": "reused", "order": ids, "warmup": []}},
-      {"name": "seed2-reusedloader-reversed", "hashseed": 2, "job": {"loader": "reused", "order": rev, "warmup": warm[:1]}},
-      {"name": "seed3-freshloader-shuffled-after3unrelated", "hashseed": 3, "job": {"loader": "fresh", "order": sh1, "warmup": warm}},
-      {"name": "seed0-reusedloader-shuffled", "hashseed": 0, "job": {"loader": "reused", "order": sh2, "warmup": warm[:2]}},
-      {"name": "seed5-freshloader-reversed", "hashseed": 5, "job": {"loader": "fresh", "order": rev, "warmup": []}},
+      {"name": "seed2-reusedloader-reversed-after1", "hashseed": 2, "job": {"loader": "reused", "order": rev, "warmup": warm[:1]}},
+      {"name": "seed3-freshloader-shuffled-after3", "hashseed": 3, "job": {"loader": "fresh", "order": sh1, "warmup": warm}},
+      {"name": "seed4-reusedloader-each-file-twice", "hashseed": 4, "job": {"loader": "reused", "order": twice, "warmup": []}},
+      {"name": "seed5-freshloader-after-name-sharing-sibling", "hashseed": 5, "job": {"loader": "fresh", "order": sib_order, "warmup": []}},
   ]
   if thorough:
-    for s in (6, 7, 8, 11, 12345):
+    cfgs.append({"name": "seed0-reusedloader-shuffled-after2", "hashseed": 0, "job": {"loader": "reused", "order": sh2, "warmup": warm[:2]}})
+    cfgs.append({"name": "seed9-reusedloader-after-name-sharing-sibling", "hashseed": 9, "job": {"loader": "reused", "order": sib_order, "warmup": []}})
+    for s_ in (6, 7, 8, 11, 12345):
       o = list(ids); r.shuffle(o)
-      cfgs.append({"name": "seed%d-%sloader-shuffled" % (s, "reused" if s % 2 else "fresh"), "hashseed": s,
-                   "job": {"loader": "reused" if s % 2 else "fresh", "order": o, "warmup": warm[: s % 4]}})
+      cfgs.append({"name": "seed%d-%sloader-shuffled" % (s_, "reused" if s_ % 2 else "fresh"), "hashseed": s_,
+                   "job": {"loader": "reused" if s_ % 2 else "fresh", "order": o, "warmup": warm[: s_ % 4]}})
+  sibprogs = [{"id": "sib_" + i, "src": sibs[i]} for i in with_sib]
   for c in cfgs:
-    c["job"]["programs"] = progs
+    c["job"]["programs"] = progs + (sibprogs if "sibling" in c["name"] else [])
     c["job"]["full"] = False
   # fresh process per program (a subset in the quick tier)
   singles = ids[:80] if thorough else ids[: max(4, len(ids) // 4)]
-  for s in ((4, 9) if thorough else (4,)):
+  for s_ in ((6, 10) if thorough else (6,)):
     for pid in singles:
-      cfgs.append({"name": "seed%d-freshprocess-%s" % (s, pid), "hashseed": s, "single": pid,
+      cfgs.append({"name": "seed%d-freshprocess-%s" % (s_, pid), "hashseed": s_, "single": pid,
                    "job": {"loader": "fresh", "order": [pid], "warmup": [], "full": False,
                            "programs": [p for p in progs if p["id"] == pid]}})
   return cfgs
@@ -596,10 +606,13 @@ def describe(cfg):
           "n_warmup": len(j["warmup"]), "fresh_process": "single" in cfg}
 
 
-def slim_job(cfg, pid):
-  """The configuration, reduced to what is needed to replay program `pid` with the same history."""
+def slim_job(cfg, pid, position=None):
+  """The configuration, reduced to what is needed to replay program `pid` with the same history
+  (`position`: index in the order of the occurrence of `pid` that is meant; default: the first)."""
   j = cfg["job"]
-  order = j["order"][: j["order"].index(pid) + 1]
+  if position is None:
+    position = j["order"].index(pid)
+  order = j["order"][: position + 1]
   return {"name": cfg["name"], "hashseed": cfg["hashseed"],
           "job": {"loader": j["loader"], "order": order, "warmup": j["warmup"], "full": True,
                   "programs": [p for p in j["programs"] if p["id"] in order]}}
@@ -616,7 +629,7 @@ def shrink_program(src, a, b, budget_s):
     jobs = [{"name": "shr_%s" % k, "hashseed": h, "job": {"loader": "fresh", "order": ["p"], "warmup": [], "programs": prog, "full": False}}
             for k, h in (("a", a), ("b", b))]
     out, _ = run_jobs(jobs, 2)
-    ra, rb = out.get("shr_a", {}).get("p"), out.get("shr_b", {}).get("p")
+    ra, rb = (out.get("shr_a", {}).get("p") or [None])[0], (out.get("shr_b", {}).get("p") or [None])[0]
     return bool(ra and rb and any(ra.get(k) != rb.get(k) for k in ("pyi", "errors", "pickle")))
 
   if not differs(src):
@@ -652,11 +665,15 @@ def e2e(res, seed, n_progs, thorough, max_par):
     d = json.load(open(os.path.join(cdir, f)))
     if d.get("kind") == "program":
       progs.append({"id": "corpus_" + os.path.splitext(f)[0], "src": d["src"]})
+  sibs = {}
   for i in range(n_progs):
-    src, fs = c04_progs.gen_program(common.rng(seed, "c04-prog", i), 1 if i % 3 else 2)
+    names_seed = "%s:%d" % (seed, i)
+    src, fs = c04_progs.gen_program(common.rng(seed, "c04-prog", i), 1 if i % 3 else 2, names_seed)
     progs.append({"id": "p%d" % i, "src": src})
+    # a different program over the same identifiers (class / function / NewType names)
+    sibs["p%d" % i] = c04_progs.gen_program(common.rng(seed, "c04-sib", i), 1, names_seed)[0]
     feats.update(fs)
-  cfgs = make_configs(r, progs, thorough)
+  cfgs = make_configs(r, progs, sibs, thorough)
   box = {}
 
   def work():
@@ -686,8 +703,11 @@ def e2e_finish(res, th, box, progs, cfgs, feats):
   mon_problems = []
   mon_stats = collections.Counter()
   oracle_problems = []
+  msg_feats = collections.Counter()
+  stub_feats = collections.Counter()
+  err_names = collections.Counter()
   for p in progs:
-    a = refres.get(p["id"])
+    a = (refres.get(p["id"]) or [None])[0]
     if a is None:
       res.obligation("e2e:reference-result:" + p["id"], False, "no result from reference configuration")
       continue
@@ -700,26 +720,35 @@ def e2e_finish(res, th, box, progs, cfgs, feats):
       err_hist["log-had-duplicates"] += 1
     for k, v in (a.get("monitor_stats") or {}).items():
       mon_stats[k] += v
+    for k, v in (a.get("msg_features") or {}).items():
+      msg_feats[k] += 1 if v else 0
+    for k, v in (a.get("stub_features") or {}).items():
+      stub_feats[k] += 1 if v else 0
+    err_names.update(a.get("error_names") or {})
     distinct = False
     for c in cfgs:
-      b = out.get(c["name"], {}).get(p["id"])
-      if b is None:
+      bs = out.get(c["name"], {}).get(p["id"])
+      if not bs:
         if p["id"] in c["job"]["order"]:
           res.obligation("e2e:result:%s:%s" % (c["name"], p["id"]), False, "no result; stderr: %s" % (errs.get(c["name"]),))
         continue
-      for m in b.get("monitor") or []:
-        mon_problems.append((p["id"], c["name"], m))
-      for o in b.get("oracle") or []:
-        oracle_problems.append((p["id"], c["name"], o))
-      if c is ref:
-        continue
-      n_cmp += 1
-      which = [k for k in ("status", "pyi", "errors", "pickle") if a.get(k) != b.get(k)]
-      if which:
-        n_diff += 1
-        report_difference(res, p, ref, c, which)
-      distinct = True
+      for b in bs:
+        for m in b.get("monitor") or []:
+          mon_problems.append((p["id"], c["name"], m))
+        for o in b.get("oracle") or []:
+          oracle_problems.append((p["id"], c["name"], o))
+        if c is ref:
+          continue
+        n_cmp += 1
+        which = [k for k in ("status", "pyi", "errors", "pickle") if a.get(k) != b.get(k)]
+        if which:
+          n_diff += 1
+          report_difference(res, p, ref, c, which, b.get("position"))
+        distinct = True
     res.count(("prog", p["src"]) if distinct else None)
+  res.extra["error_message_surface(programs_with)"] = dict(msg_feats)
+  res.extra["stub_surface(programs_with)"] = dict(stub_feats)
+  res.extra["error_classes_reported"] = dict(err_names)
   for pid, cname, o in oracle_problems[:3]:
     p = next(x for x in progs if x["id"] == pid)
     violation_once(res, "errors-report:" + o.split(":")[0],
@@ -735,19 +764,19 @@ def e2e_finish(res, th, box, progs, cfgs, feats):
   res.extra["e2e_error_histogram"] = dict(err_hist)
   res.extra["monitored_on_pipeline_trees"] = dict(mon_stats)
   if progs and len(res.samples) < 6:
-    a = refres.get(progs[-1]["id"], {})
+    a = (refres.get(progs[-1]["id"]) or [{}])[0]
     res.sample({"program_head": progs[-1]["src"][:400], "pyi_sha": a.get("pyi"), "errors_sha": a.get("errors"),
                 "pickle_sha": a.get("pickle"), "n_errors": a.get("n_errors")})
 
 
-def report_difference(res, p, ref, c, which):
+def report_difference(res, p, ref, c, which, position=None):
   # the fingerprint names WHICH outputs differ and whether a hash seed alone suffices; decide that first
   # (cheaply, from the configurations), shrink only if this fingerprint has not been reported yet
   seed_differs = ref["hashseed"] != c["hashseed"]
   coarse = "output-differs:%s" % "+".join(which)
   if len(res.violations) >= 3 or any(v["fingerprint"].startswith(coarse + ":") for v in res.violations):
     return
-  ja, jb = slim_job(ref, p["id"]), slim_job(c, p["id"])
+  ja, jb = slim_job(ref, p["id"]), slim_job(c, p["id"], position)
   src = p["src"]
   alone = False
   if seed_differs:
@@ -771,9 +800,12 @@ def run(res):
               "ClassTypes, populated lookup caches, deliberate sort-key ties), each also deep-shuffled; non-trivial iff "
               "canonicalisation changes the unit or its shuffle. (b) error logs of 0-30 Error objects over few "
               "files/lines/messages with nested, equal, incomparable and malformed tracebacks; non-trivial iff >= 2 errors. "
-              "(c) generated programs (typing only; classes, unions, containers, call-site tracebacks, same-line errors) "
-              "analysed under several hash seeds x {fresh process, reused loader, after unrelated analyses}; non-trivial iff "
-              "compared under >= 2 configurations.")
+              "(c) generated programs (typing + attr only) that print rich types in error messages (multi-valued str/int Literals, "
+              "unions >= 3, Optional containers, signatures with defaults, attribute errors on unions, same-line errors, nested "
+              "tracebacks) and use typing features with internal names/counters (NewType with literal and computed names, "
+              "NamedTuple/TypedDict in both forms, Generic over >= 2 TypeVars, Protocol, overload, attr.s, nested classes, "
+              "lambdas, closures), analysed under several hash seeds x {fresh process, fresh/reused loader, after rich unrelated "
+              "analyses, same file twice, after a program sharing its identifiers}; non-trivial iff compared under >= 2 configurations.")
   res.assumptions = [
       "PARTIAL: the theorems cover the last two stages only (canonical ordering of the unit; sorting/dedup of the error log). "
       "Set/dict iteration inside the VM, id()-based ordering and loader caches are covered by the subprocess differential (search), not proved.",
@@ -792,7 +824,7 @@ def run(res):
   deep = thorough or drift
   names = set(pytd_visitors.CanonicalOrderingVisitor().visit_class_names)
   # ---- (3) is started first: its subprocesses run while the Coq legs below are evaluated
-  finish_e2e = e2e(res, res.seed, 240 if thorough else 24, thorough, 10 if thorough else 6)
+  finish_e2e = e2e(res, res.seed, 160 if thorough else 20, thorough, 10 if thorough else 6)
   t0 = time.time()
   # ---- (2a)
   cases = canon_cases(res, res.seed, 1800 if thorough else (400 if deep else 60), names)
@@ -838,7 +870,8 @@ def replay(res, path):
       jobs = [dict(rp["config_a"], name="a"), dict(rp["config_b"], name="b")]
     out, errs = run_jobs(jobs, 2)
     tgt = jobs[0]["job"]["order"][-1]
-    rs = [out.get(j["name"], {}).get(tgt) for j in jobs]
+    tgts = [j["job"]["order"][-1] for j in jobs]
+    rs = [(out.get(j["name"], {}).get(t) or [None])[-1] for j, t in zip(jobs, tgts)]
     for j, r_ in zip(jobs, rs):
       print("== configuration", describe(j))
       if r_ is None:
